@@ -105,4 +105,47 @@ def apply_body_rules(rw, src, f, body_open, body_close, loops, cfg):
             raise Undecided(f"anchor lost: rewrite pattern {pat!r} not found in {f.key}")
         for k in hits:
             rw.replace(k, k + len(pt), rep, rule)
-    # R5: tail `loop { .. break v .. }` is left to Verus; `.copied()` / `.cloned()` dropped by opts
+    # R5-enumerate: `for (i, pat) in E.enumerate()[.skip(k)] { body }`
+    #   ->  `let mut i: usize = k; for pat in E[.skip(k)] { body; i += 1; }`
+    for lp in loops:
+        if lp["kind"] != "for":
+            continue
+        kw, inn, bo, bc = lp["kw"], lp["in"], lp["body_open"], lp["body_close"]
+        # find `.enumerate()` at depth 0 of the iterable expression
+        k, en = inn + 1, None
+        while k < bo:
+            if toks[k].text in ("(", "["):
+                k = src.pairs[k] + 1
+                continue
+            if toks[k].text == "." and toks[k + 1].text == "enumerate" and toks[k + 2].text == "(" and toks[k + 3].text == ")":
+                en = k
+                break
+            k += 1
+        if en is None:
+            continue
+        if toks[kw + 1].text != "(":
+            raise Undecided(f"{src.rel}:{toks[kw].line}: enumerate() loop without tuple pattern")
+        pc = src.pairs[kw + 1]
+        parts = split_top(src, kw + 2, pc)
+        if len(parts) != 2 or parts[0][1] - parts[0][0] != 1:
+            raise Undecided(f"{src.rel}:{toks[kw].line}: unsupported enumerate() pattern")
+        idx = toks[parts[0][0]].text
+        start = "0"
+        rest = en + 4
+        if rest < bo:
+            if toks[rest].text == "." and toks[rest + 1].text == "skip" and src.pairs[rest + 2] == bo - 1:
+                start = src.text[toks[rest + 3].start:toks[bo - 2].end]
+            else:
+                raise Undecided(f"{src.rel}:{toks[kw].line}: unsupported adapter after enumerate()")
+        for q in range(bo + 1, bc):
+            if toks[q].kind == "ident" and toks[q].text == "continue":
+                raise Undecided(f"{src.rel}:{toks[q].line}: `continue` inside an enumerate() loop")
+        pat = src.text[toks[parts[1][0]].start:toks[parts[1][1] - 1].end]
+        rw.replace(kw + 1, pc + 1, pat, "R5-enumerate")
+        rw.replace(en, en + 4, "", "R5-enumerate")
+        first = kw - 2 if lp["label"] else kw
+        rw.insert(first, f"let mut {idx}: usize = {start};\n        ", "R5-enumerate")
+        rw.insert(bc, f"    {idx} += 1;\n        ", "R5-enumerate")
+
+
+COPIED = [(".copied()", ".map(|c_: &R| -> (y_: R) ensures y_ == *c_ { *c_ })", "R5-copied")]
